@@ -25,6 +25,18 @@ fn query_of(scn: &Value) -> Value {
 }
 
 fn run_scenario(out: &mut Out, scn: &Value) {
+    // application path: half of the queries carry a weight estimate, a label as often as a number (every expansion
+    // inherits it and the load balancing stage has to cope with both)
+    let mut scn_owned = scn.clone();
+    if scn["mode"] == "app" {
+        let na = scn["axes"].as_array().map(|a| a.len()).unwrap_or(0) + scn["base"].as_object().map(|b| b.len()).unwrap_or(0);
+        match na % 4 {
+            0 => scn_owned["base"]["query_weight_estimate"] = json!("long_trip"),
+            1 => scn_owned["base"]["query_weight_estimate"] = json!(3),
+            _ => {}
+        }
+    }
+    let scn = &scn_owned;
     out.scenario(scn);
     let nogrid = scn["nogrid"].as_bool().unwrap_or(false);
     let axes = if nogrid { json!([]) } else { scn["axes"].clone() };
@@ -71,10 +83,25 @@ fn run_scenario(out: &mut Out, scn: &Value) {
             match apply_input_plugins(&q, &plugins) {
                 Err(e) => out.event(json!({"ev": "Error", "msg": e.to_string()})),
                 Ok(items) => {
+                    // ... and the load balancing stage: what is handed to the workers, bin by bin, must still be every
+                    // expansion (reported in expansion order)
+                    let par = 1 + items.len() % 3;
+                    let mut binned: Vec<Value> = match routee_compass::app::compass::compass_app_ops::apply_load_balancing_policy(&items, par, 1.0) {
+                        Ok(bins) => bins.iter().flatten().map(|q| (*q).clone()).collect(),
+                        Err(e) => {
+                            out.event(json!({"ev": "Error", "msg": e.to_string()}));
+                            return;
+                        }
+                    };
+                    let mut n = 0;
                     for it in &items {
-                        out.event(json!({"ev": "Emit", "mode": mode, "q": it, "combo": []}));
+                        if let Some(p) = binned.iter().position(|b| b == it) {
+                            binned.remove(p);
+                            out.event(json!({"ev": "Emit", "mode": mode, "q": it, "combo": []}));
+                            n += 1;
+                        }
                     }
-                    out.event(json!({"ev": "End", "n": items.len()}));
+                    out.event(json!({"ev": "End", "n": n + binned.len()}));
                 }
             }
         }
